@@ -14,6 +14,10 @@
 (*   run   cli cfg outcome created   main(argv [+ config file]) returned / *)
 (*         intact digest             raised in a fresh process + directory *)
 (*                                                                         *)
+(*   roundtrip salt place o1 o2      main -a -s X ; main -u -s X on its    *)
+(*             restored              output (two fresh processes): outcomes *)
+(*                                   and whether the input came back        *)
+(*                                                                         *)
 (* Every run event is judged (total verdict, first failing clause named):  *)
 (* Cli!Verdict on the outcome class and what was written; then, for a      *)
 (* valid vector with a salt, the created bytes must equal those of the     *)
@@ -55,6 +59,10 @@ TraceNext ==
             ELSE IF Compared(e, v) /\ ref = None
                  THEN ref' = e.digest /\ refp' = Params(v) /\ UNCHANGED compare
                  ELSE UNCHANGED <<compare, ref, refp>>
+       [] e.ev = "roundtrip" ->
+            LET c == RoundTripVerdict(e.o1, e.o2, e.restored) IN
+            /\ (c # "ok" => PrintT(<<"FAIL", e.tid, l, c>>))
+            /\ UNCHANGED <<compare, ref, refp>>
        [] OTHER -> PrintT(<<"FAIL", e.tid, l, "UnknownEvent">>) /\ UNCHANGED <<compare, ref, refp>>
 TraceSpec == TraceInit /\ [][TraceNext]_tvars
 Done == l = N + 1 => PrintT(<<"DONE", N>>)
